@@ -45,7 +45,7 @@
 import DDProofs.DynExample
 import DDProofs.DynSift
 import DDProofs.DynCube
-import DDProofs.DynImageOps
+import DDProofs.DynImageKeys
 import DDProps.Tables
 namespace DD
 
@@ -451,18 +451,97 @@ example : PreimagePreN 1 [("a", "b")] ["b"] exDyn.tbl ∧ HeldX exExt 4 ∧ Held
     (Or.inl rfl) false [("a", "b")] ["b"] hpre
   exact ⟨r, m', he, by rw [hp.enabled]; rfl, hp.doc.1⟩
 
+/-- C09 `image` with the arguments of `C13_image`: renaming and `qvars` given by ANY keys (names
+or LEVELS) that resolve, at the time of the call, to declared levels; the code's own checks pass
+(no key is a value; every target quantified or outside the supports).  The wrapper turns the keys
+into the names at these levels before anything can reorder, so the result is the documented image
+stated with the names the levels had when the call was made (`namePairs`, `nameOf`). -/
+theorem C09_image_keys_transparent (ext : Nat → Nat) (m : Mgr) (hD : DynInv ext m)
+    (trans source : Int) (ht : HeldX ext trans) (hs : HeldX ext source)
+    (fa : Bool) (rn : List (Key × Key)) (qvars : List Key) (q : List Nat)
+    (hq : mapToLevelE m.tbl qvars = .ok q)
+    (hov : renameOverlap (resolveRename m.tbl rn) = false)
+    (hnl : renameNonLevel (resolveRename m.tbl rn) = false)
+    (hlv : ∀ p, p ∈ intPairs (resolveRename m.tbl rn) →
+      0 ≤ p.1 ∧ p.1 < (m.nvars : Int) ∧ 0 ≤ p.2 ∧ p.2 < (m.nvars : Int))
+    (htg : ∀ p, p ∈ intPairs (resolveRename m.tbl rn) → ∀ l : Nat, p.2 = (l : Int) →
+      l ∈ q ∨ (¬ dependsOn m.tbl trans l ∧ ¬ dependsOn m.tbl source l)) :
+    ∃ r m', image trans source rn qvars fa m = (.ok r, m') ∧
+      DynPostG ext (ImageDoc fa (q.map m.tbl.nameOf)
+        (namePairs m.tbl (intPairs (resolveRename m.tbl rn))) trans source) m r m' :=
+  image_keys_transparent ext (siftContract ext) m hD trans source ht hs fa rn qvars q hq hov hnl
+    hlv htg
+
+/-- C09 `preimage` with the arguments of `C13_preimage_partial` (any keys resolving to declared
+levels; no key is a value; no two keys with the same value; the target independent of every
+value) — adjacency is not asked of the order of the call but, in the conclusion, of the order the
+manager is left in (`PreimageDoc`). -/
+theorem C09_preimage_keys_transparent (ext : Nat → Nat) (m : Mgr) (hD : DynInv ext m)
+    (trans target : Int) (ht : HeldX ext trans) (hs : HeldX ext target)
+    (fa : Bool) (rn : List (Key × Key)) (qvars : List Key) (q : List Nat)
+    (hq : mapToLevelE m.tbl qvars = .ok q)
+    (hov : renameOverlap (resolveRename m.tbl rn) = false)
+    (hnl : renameNonLevel (resolveRename m.tbl rn) = false)
+    (hlv : ∀ p, p ∈ intPairs (resolveRename m.tbl rn) →
+      0 ≤ p.1 ∧ p.1 < (m.nvars : Int) ∧ 0 ≤ p.2 ∧ p.2 < (m.nvars : Int))
+    (hinj : ∀ p p', p ∈ intPairs (resolveRename m.tbl rn) →
+      p' ∈ intPairs (resolveRename m.tbl rn) → p.2 = p'.2 → p.1 = p'.1)
+    (hind : ∀ p, p ∈ intPairs (resolveRename m.tbl rn) → ∀ l : Nat, p.2 = (l : Int) →
+      ¬ dependsOn m.tbl target l) :
+    ∃ r m', preimage trans target rn qvars fa m = (.ok r, m') ∧
+      DynPostG ext (PreimageDoc fa (q.map m.tbl.nameOf)
+        (namePairs m.tbl (intPairs (resolveRename m.tbl rn))) trans target) m r m' :=
+  preimage_keys_transparent ext (siftContract ext) m hD trans target ht hs fa rn qvars q hq hov
+    hnl hlv hinj hind
+
+/-- non-vacuity (`C09_image_keys_transparent`, `C09_preimage_keys_transparent`, keys as LEVELS):
+on `exDyn` (`a` at level 0, `b` at level 1): `image(a ∧ b, TRUE, {1: 0}, {0})` and
+`preimage(a ∧ b, TRUE, {0: 1}, {1})` -/
+example : (∃ r m', image 4 1 [(.lvl 1, .lvl 0)] [.lvl 0] false exDyn = (.ok r, m') ∧
+      DynPostG exExt (ImageDoc false ["a"] [("b", "a")] 4 1) exDyn r m') ∧
+    (∃ r m', preimage 4 1 [(.lvl 0, .lvl 1)] [.lvl 1] false exDyn = (.ok r, m') ∧
+      DynPostG exExt (PreimageDoc false ["b"] [("a", "b")] 4 1) exDyn r m') := by
+  have hn : exDyn.nvars = 2 := by decide
+  have h0 : exDyn.tbl.nameOf 0 = "a" := by decide
+  have h1 : exDyn.tbl.nameOf 1 = "b" := by decide
+  have hnd : ∀ l, ¬ dependsOn exDyn.tbl 1 l := by
+    rintro l ⟨a, hne⟩
+    exact hne (by rw [den_one, den_one])
+  constructor
+  · obtain ⟨hres, hip⟩ := intPairs_resolveRename_levels exDyn.tbl [(1, 0)] (by simp)
+    simp only [List.map] at hres hip
+    have := C09_image_keys_transparent exExt exDyn exDyn_dynInv 4 1 exExt_held4 (Or.inl rfl) false
+      [(.lvl 1, .lvl 0)] [.lvl 0] [0] (by rfl) (by rw [hres]; decide) (by rw [hres]; decide)
+      (by rw [hres, hip]; intro p hp; simp at hp; subst hp; rw [hn]; decide)
+      (by
+        rw [hres, hip]; intro p hp l hl; simp at hp; subst hp
+        simp only at hl
+        left
+        have : l = 0 := by omega
+        subst this; simp)
+    rw [hres, hip] at this
+    simpa [namePairs, h0, h1] using this
+  · obtain ⟨hres, hip⟩ := intPairs_resolveRename_levels exDyn.tbl [(0, 1)] (by simp)
+    simp only [List.map] at hres hip
+    have := C09_preimage_keys_transparent exExt exDyn exDyn_dynInv 4 1 exExt_held4 (Or.inl rfl)
+      false [(.lvl 0, .lvl 1)] [.lvl 1] [1] (by rfl) (by rw [hres]; decide)
+      (by rw [hres]; decide)
+      (by rw [hres, hip]; intro p hp; simp at hp; subst hp; rw [hn]; decide)
+      (by rw [hres, hip]; intro p p' hp hp' _; simp at hp hp'; rw [hp, hp'])
+      (by rw [hres, hip]; intro p hp l _; exact hnd l)
+    rw [hres, hip] at this
+    simpa [namePairs, h0, h1] using this
+
 /-! ## what is not covered
 
 Proved above for the decorated entry points of the model: `ite`, `apply` (binary propositional
 aliases, `ite`, quantifier aliases), `var`, `quantify`/`exist`/`forall`, `let` in its three forms
 (`cofactor`, `compose`, `rename`), `cube`, `copy_bdd` into the manager, `image`, `preimage`
-(arguments by name; `preimage`'s meaning under the proviso that the partners are still
-neighbours), and the chaining of calls with `incref` in between.  NOT covered by a theorem:
+(arguments by name or by level; `preimage`'s meaning under the proviso that the partners are
+still neighbours), and the chaining of calls with `incref` in between.  NOT covered by a theorem:
 `add_expr` as a whole (the parser's tree walk of C05 is a chain of the calls above with the
 intermediate results held by the autoref wrapper — `C09_chained_calls_transparent` is the
 two-call instance; the general statement is C08's history theorem composed with the theorems
-above), `load` (C12/C16), `image` / `preimage` with arguments given by LEVEL (the wrapper turns
-them into the names at those levels first: same body; decided by correspondence at every trigger
-position). -/
+above), `load` (C12/C16): decided by correspondence at every trigger position. -/
 
 end DD
